@@ -426,6 +426,10 @@ Error:
 int
 Tiff::set(const struct StorageProperties* settings) noexcept
 {
+    // Configured again while still running: finalize and close the file that
+    // is being written first. Nothing else would ever close it: stop() only
+    // acts on a running writer and set() leaves the running state.
+    stop();
     EXPECT(settings->uri.str, "Filename string is NULL.");
     EXPECT(settings->uri.nbytes, "Filename string is zero size.");
     {
